@@ -397,7 +397,7 @@ func emitPrincipal(class string, reqs []preq, e2e bool) {
 		}
 	}
 	obsC := obsList(t, per) // (fills the table with any intent only the implementation produced)
-	coq := hv.Tuple(t.coq(), hv.List(rs), obsC, hv.Ni(res.abnormal))
+	coq := hv.App(map[bool]string{false: "PC", true: "EC"}[e2e], t.coq(), hv.List(rs), obsC, hv.Ni(res.abnormal))
 	desc := strings.Join(ds, " ; ")
 	hv.Emit(hv.Case{Fn: fn, Coq: coq, Class: class, Desc: desc, Spec: v.ok, Sig: v.sig, What: v.what, NT: nt,
 		Replay: map[string]interface{}{"history": ds, "observed": seen, "abnormal": res.abnormal}})
@@ -453,7 +453,7 @@ func emitTarget(class string, msgs []tmsg) {
 		}
 	}
 	obsC := obsList(t, per)
-	coq := hv.Tuple(t.coq(), hv.List(ms), obsC, hv.Ni(res.abnormal))
+	coq := hv.App("MC", t.coq(), hv.List(ms), obsC, hv.Ni(res.abnormal))
 	hv.Emit(hv.Case{Fn: "c06t_ok", Coq: coq, Class: class, Desc: strings.Join(ds, " ; "), Spec: v.ok, Sig: v.sig, What: v.what, NT: nt,
 		Replay: map[string]interface{}{"messages": ds, "observed": seen, "abnormal": res.abnormal}})
 }
@@ -552,11 +552,11 @@ func main() {
 		}
 		return reqs
 	}
-	for k := 0; k < hv.Scale(1100, 20000); k++ {
+	for k := 0; k < hv.Scale(1100, 6000); k++ {
 		emitPrincipal("random-principal", genHistory(8, false), false)
 	}
 	// 3. the real principal against the real target instance
-	for k := 0; k < hv.Scale(500, 8000); k++ {
+	for k := 0; k < hv.Scale(500, 2500); k++ {
 		emitPrincipal("random-principal+target", genHistory(6, true), true)
 	}
 	// 4. the real target instance alone: exhaustive check/add/malformed histories of length <= 3, then random
@@ -577,7 +577,7 @@ func main() {
 	for n := 1; n <= 3; n++ {
 		trec(nil, n)
 	}
-	for k := 0; k < hv.Scale(250, 5000); k++ {
+	for k := 0; k < hv.Scale(250, 1500); k++ {
 		n := 1 + r.Intn(7)
 		pool := pool
 		if r.Chance(15) {
